@@ -35,13 +35,17 @@ func startServer(ps *prover.ProvingSystem, mode string) (*testServer, error) {
 
 func startServerAt(ps *prover.ProvingSystem, mode, proverAddr, metricsAddr string) (*testServer, error) {
 	s := &testServer{ProverAddr: proverAddr, MetricsAddr: metricsAddr, Mode: mode, PS: ps}
-	s.client = &http.Client{Timeout: 120 * time.Second, Transport: &http.Transport{MaxIdleConnsPerHost: 64, DisableCompression: true}}
+	s.client = newClient()
 	cfg := server.Config{ProverAddress: proverAddr, MetricsAddress: metricsAddr, Mode: mode}
 	s.job = server.Run(&cfg, ps)
 	if err := s.waitReady(20 * time.Second); err != nil {
 		return nil, err
 	}
 	return s, nil
+}
+
+func newClient() *http.Client {
+	return &http.Client{Timeout: 300 * time.Second, Transport: &http.Transport{MaxIdleConnsPerHost: 64, DisableCompression: true}}
 }
 
 func (s *testServer) waitReady(d time.Duration) error {
